@@ -35,6 +35,14 @@ class C10(Prop):
 
     def generate(self, tier, rng):
         N = 1000 if tier == "quick" else 15000
+        for n in ([1100] if tier == "quick" else [1001, 1100, 2500]):
+            # more rows than the default n_max of the partial dependence, with n_max=None ("no subsampling") passed explicitly
+            y = [rng.randint(-8, 16) / 4 for _ in range(n)]
+            pred = [rng.randint(-8, 16) / 4 for _ in range(n)]
+            yield {"stream": "marginal", "y": y, "pred": pred, "preds": [pred], "colnames": None, "w": [rng.choice([1.0, 2.0, 0.5]) for _ in range(n)],
+                   "other": [float(rng.randint(-3, 5)) for _ in range(n)], "n_bins": 4, "method": "quantile", "a": 2, "b": 1, "c": 1,
+                   "n_max": 10**9, "n_max_none": True, "seed": 5, "with_pd": True, "fkind": "numeric", "kind": "float",
+                   "feature": [float(rng.randint(0, 9)) for _ in range(n)], "xcontainer": "polars"}
         for k in range(N):
             n = rng.choice([1, 2, 3, 5, 8, 13, 30]) if rng.random() < 0.85 else rng.randint(31, 80)
             y = [rng.randint(-8, 16) / 4 for _ in range(n)]
@@ -141,7 +149,7 @@ class C10(Prop):
 
         try:
             df = compute_marginal(y, p, X=X, feature_name=fname, predict_function=pred_fun if case["with_pd"] else None, weights=w,
-                                  n_bins=case["n_bins"], bin_method=case["method"], n_max=case["n_max"], rng=case["seed"])
+                                  n_bins=case["n_bins"], bin_method=case["method"], n_max=None if case.get("n_max_none") else case["n_max"], rng=case["seed"])
         except Exception as e:
             return {"err": exc_class(e), "msg": str(e)[:300]}
         fcol = "f" if fname == "f" else "feature 0"
@@ -179,7 +187,7 @@ class C10(Prop):
                 grid = pl.Series([g], dtype=X["f"].dtype) if (isinstance(X, pl.DataFrame) and case["fkind"] == "string") else [g]
                 try:
                     seen_before = len(seen)
-                    direct.append(float(compute_partial_dependence(pred_fun, X, 0, grid, weights=w, n_max=case["n_max"], rng=case["seed"])[0]))
+                    direct.append(float(compute_partial_dependence(pred_fun, X, 0, grid, weights=w, n_max=None if case.get("n_max_none") else case["n_max"], rng=case["seed"])[0]))
                     del seen[seen_before:]
                 except Exception as e:
                     direct.append("err:" + exc_class(e))
